@@ -64,6 +64,11 @@ def make(kind):
     d.activity("ex:a1", T1, None, {"ex:q": Literal("l", langtag="en")})
     d.generation("ex:e1", "ex:a1", T1, identifier="ex:g1")
     d.usage("ex:a1", "ex:e1")
+    if kind == "looked-at":
+        # observers run before the derivation: reading an attribute a record does not have (label, value, formal
+        # arguments, get_attribute of an absent name) leaves an empty value set behind in its defaultdict
+        for r in d.get_records():
+            r.label, r.value, r.formal_attributes, r.args, r.get_attribute("ex:absent"), r.get_attribute("ex:added"), repr(r), str(r)
     return d
 
 
@@ -78,7 +83,7 @@ def with_bundles(d):
 
 # ---- deriving operations: source factory -> (source, derived, label of what must stay apart)
 def derivations():
-    for kind in ("plain", "default"):
+    for kind in ("plain", "default", "looked-at"):
         yield "record.copy[%s]" % kind, lambda kind=kind: (lambda d: (d, d.get_record("ex:e1")[0].copy(), d.get_record("ex:e1")[0]))(make(kind))
         def add_record(kind=kind):
             s = make(kind)
